@@ -115,15 +115,23 @@ impl<T: Eq> Eq for RunElement<T> {}
 
 impl<T: PartialOrd> PartialOrd for RunElement<T> {
     fn partial_cmp(&self, other: &Self) -> Option<Ordering> {
-        // Reverse order for max-heap behavior in BinaryHeap
-        other.value.partial_cmp(&self.value)
+        // Elements of the current run come out before elements deferred to the next run;
+        // within a run, reverse order for max-heap behavior in BinaryHeap
+        match other.run_id.cmp(&self.run_id) {
+            Ordering::Equal => other.value.partial_cmp(&self.value),
+            by_run => Some(by_run),
+        }
     }
 }
 
 impl<T: Ord> Ord for RunElement<T> {
     fn cmp(&self, other: &Self) -> Ordering {
-        // Reverse order for max-heap behavior in BinaryHeap
-        other.value.cmp(&self.value)
+        // Elements of the current run come out before elements deferred to the next run;
+        // within a run, reverse order for max-heap behavior in BinaryHeap
+        other
+            .run_id
+            .cmp(&self.run_id)
+            .then_with(|| other.value.cmp(&self.value))
     }
 }
 
